@@ -10,7 +10,7 @@ import copy
 import json
 import re
 
-from vcheck import Machinery, pmap
+from vcheck import Machinery, pmap, guarded
 
 _RECORDS6 = [('x', 1, 0, 'p'), ('longer text', 22, 1, 'qq'), ('', 333, 10, 'a longer one'), ('mid', 4, 1, ''), ('z', 5, 7, 'rrr'),
            ('zz', 66, 0, 's')]
@@ -96,6 +96,7 @@ def _checkpoint(t, nrec, where):
     return None, []
 
 
+@guarded(lambda m: (m, None, []))
 def replay_history(job):
     h, nrec = job
     hist = h['hist']
